@@ -36,9 +36,9 @@ var observeOps = []string{"obsString", "obsString", "obsWriteTo", "obsFunc", "ob
 
 // world is the state built by replaying a history.
 type world struct {
-	m      *ir.Module
-	uses   map[value.Value]int // number of operand slots that refer to a value (to remove only unused instructions)
-	nameN  int
+	m     *ir.Module
+	uses  map[value.Value]int // number of operand slots that refer to a value (to remove only unused instructions)
+	nameN int
 }
 
 func newWorld() *world {
